@@ -1,6 +1,7 @@
 package main
 
 import (
+	"sort"
 	"strings"
 
 	"verifharness/internal/gen"
@@ -96,17 +97,38 @@ func genScript(r *gen.Rand, w *gen.Writer, safe bool) script {
 		}
 		w.Count("script-oldinput")
 	}
-	s.wipos = len(s.flashes)
-	if len(s.olds) > 0 && len(s.flashes) > 0 {
-		// WithInput() anywhere in the With chain; a With key may equal an old-input key
-		if r.Bool() {
-			s.wipos = r.Intn(len(s.flashes) + 1)
-			w.Count("script-withinput-early")
+	// WithInput() calls: usually one, sometimes two or three (every call appends the input again),
+	// sometimes none although the request carries input; anywhere in the With chain
+	k := 0
+	if len(s.olds) > 0 {
+		k = 1
+		if r.Chance(1, 4) {
+			k = 2 + r.Intn(2)
+			w.Count("script-withinput-repeated")
+		} else if r.Chance(1, 10) {
+			k = 0
+			w.Count("script-input-not-attached")
 		}
-		if r.Chance(1, 2) {
-			s.flashes[r.Intn(len(s.flashes))].key = s.olds[r.Intn(len(s.olds))][0]
-			w.Count("script-key-collides-with-input")
+	} else if r.Chance(1, 8) {
+		k = 1 // WithInput() with nothing to bind
+		w.Count("script-withinput-no-input")
+	}
+	early := len(s.flashes) > 0 && r.Bool()
+	for i := 0; i < k; i++ {
+		p := len(s.flashes)
+		if early {
+			p = r.Intn(len(s.flashes) + 1)
 		}
+		s.wipos = append(s.wipos, p)
+	}
+	sort.Ints(s.wipos)
+	if early && k > 0 {
+		w.Count("script-withinput-early")
+	}
+	if len(s.olds) > 0 && len(s.flashes) > 0 && r.Chance(1, 2) {
+		// a With key may equal an old-input key
+		s.flashes[r.Intn(len(s.flashes))].key = s.olds[r.Intn(len(s.olds))][0]
+		w.Count("script-key-collides-with-input")
 	}
 	if len(s.flashes) == 0 && len(s.olds) == 0 {
 		w.Count("script-empty")
